@@ -41,6 +41,7 @@ class Ctx(object):
         self._printed = set()
         self._fam_reports = {}
         self.replay_errors = []
+        self.crashes = []
         self._fam_skipped = {}
         self.max_reports_per_family = 8
 
@@ -211,12 +212,13 @@ class Ctx(object):
               'violations=%d known=%d wall=%.1fs'
               % (self.pid, self.tier, level, obl, dis, len(und), len(self.bounded),
                  len(self.violations), len(self.known_hits), time.time() - self.t0))
-        if self.replay_errors:
-            print('CHECKER-FAULT: %d replay(s) crashed, e.g. %s' % (len(self.replay_errors),
-                                                                     self.replay_errors[0]))
-            return 3
         if self.violations:
             return 1
+        if self.replay_errors or self.crashes:
+            print('CHECKER-FAULT: %d replay(s) / %d task(s) crashed, e.g. %s'
+                  % (len(self.replay_errors), len(self.crashes),
+                     (self.replay_errors + self.crashes)[0]))
+            return 3
         if self.undecided_no_route:
             print('UNDECIDED (no bounded route): %s' % self.undecided_no_route[:10])
             return 2
